@@ -255,6 +255,12 @@ def _(n, T):
     return [F(n, "int", [P("a", "val", "int"), P("b", "val", "int"), P("c", "val", "int"), P("d", "val", "int", default="7"), P("e", "val", "int", default="11")])]
 
 
+@shape("default_str", langs=("c++",), wraps=("c", "fortran", "python"), doc="tutorial.yaml / cxxlibrary.yaml: a defaulted std::string argument after a defaulted native one")
+def _(n, T):
+    return [F(n, "int", [P("a", "val", "int", default="1"), P("s", "str_cref", default='"none"')]),
+            F(n + "b", "int", [P("a", "val", "int"), P("f", "val", "bool", default="true"), P("s", "str_cref", default='"x y"')])]
+
+
 @shape("default_out", langs=("c++",), wraps=("c", "fortran", "python"), doc="cxxlibrary.yaml defaultArgsInOut (intent(out) argument before defaulted ones)")
 def _(n, T):
     return [F(n, "int", [P("a", "val", "int"), P("st", "ptr_out", "int"), P("b", "val", "int", default="2"), P("c", "val", "int", default="9")])]
@@ -329,6 +335,28 @@ def _(n, T):
             F(n + "c", "cstr", [P("a", "val", "int")], ns=n + "_inner")]
 
 
+@shape("arr_res_dim2_py", types=["int", "double"], wraps=("python",), doc="pointers.yaml / ownership.yaml: pointer result and out argument with +dimension(expr, expr), list mode: a flat list of the product of the extents")
+def _(n, T):
+    return [F(n + "p", {"kind": "arr_ptr", "T": T, "deref": "pointer", "owner": "library", "dims": ["n+1", "m"]},
+              [P("n", "val", "int", role="count"), P("m", "val", "int", role="count")])]
+
+
+@shape("ptr_res_default", types=["int", "double"], wraps=("c", "fortran"), doc="pointers.yaml returnIntPtrToScalar (native pointer result without attributes: Fortran POINTER)")
+def _(n, T):
+    return [F(n, {"kind": "ptr_scalar", "T": T, "deref": None}, [P("a", "val", "int")])]
+
+
+@shape("template_ptr_res", langs=("c++",), wraps=("c", "fortran"), doc="templates.yaml + pointers.yaml: function template returning a pointer to its argument type")
+def _(n, T):
+    return [F(n, {"kind": "ptr_scalar", "T": "ArgType", "deref": None}, [P("a", "val", "ArgType")], template=["int", "double"])]
+
+
+@shape("template_two", langs=("c++",), wraps=("c", "fortran"), doc="templates.yaml: function template with two type parameters (declaration order Value, Index)")
+def _(n, T):
+    return [F(n, {"kind": "val", "T": "Value"}, [P("v", "val", "Value"), P("k", "val", "Index")], tparams=["Value", "Index"],
+              template=[["double", "int"], ["int", "long"], ["float", "short"]])]
+
+
 @shape("class_const", langs=("c++",), wraps=("c",), doc="docs/classes.rst: const and non-const member functions, an overload pair that differs only in const, a const method declared first")
 def _(n, T):
     c = n + "_C"
@@ -391,7 +419,8 @@ def yaml_of(lib):
     for f in lib2["functions"]:
         y = dict(f.get("yaml") or {})
         if f.get("template"):
-            y["cxx_template"] = [{"instantiation": "<%s>" % t} for t in f["template"]]
+            y["_tparams"] = list(f.get("tparams") or ["ArgType"])
+            y["cxx_template"] = [{"instantiation": "<%s>" % ir.tlabel(t).replace(",", ", ")} for t in f["template"]]
         if f.get("generic"):
             y["fortran_generic"] = [{k: v for k, v in g.items() if k in ("decl", "function_suffix")} for g in f["generic"]]
         f["yaml"] = y
@@ -399,8 +428,9 @@ def yaml_of(lib):
     # function templates: declaration text with template<> prefix
     def fix(decls):
         for e in decls:
-            if "cxx_template" in e and "ArgType" in e["decl"]:
-                e["decl"] = "template<typename ArgType> " + e["decl"]
+            if "cxx_template" in e and e.get("_tparams"):
+                e["decl"] = "template<%s> " % ", ".join("typename " + x for x in e.pop("_tparams")) + e["decl"]
+            e.pop("_tparams", None)
             if "declarations" in e:
                 fix(e["declarations"])
     fix(d["declarations"])
@@ -474,8 +504,9 @@ def assign_names(lib):
             if f.get("ctor"):
                 under = "ctor"
             insts = f.get("template") or [None]
-            for t in insts:
-                tsfx = ("_" + t.replace(" ", "_")) if t else ""
+            for ti, t in enumerate(insts):
+                # one template argument: suffix from the type; several: the sequence number (docs/reference.rst template_suffix)
+                tsfx = ("_%d" % ti if isinstance(t, (list, tuple)) else "_" + t.replace(" ", "_")) if t else ""
                 gens = f.get("generic") or [None]
                 # option C_extern_C: a library function that already has C linkage and needs no conversion is its
                 # own C API (no wrapper is generated; Fortran binds to it directly)
@@ -545,7 +576,7 @@ def call_plan(lib, r, per_func=6, hostile=True):
             T = v["template"]
             ins = [p for p in f["params"][:v["nparams"]] if p["kind"] in ir.IN_KINDS and p["kind"] != "implied"]
             def ptype(p):
-                return T if p.get("T") == "ArgType" else p.get("T")
+                return ir.tsub(p.get("T"), f, T)
             base = {}
             for p in ins:
                 pp = dict(p, T=ptype(p))
